@@ -15,7 +15,7 @@ WORK = vlib.WORK
 
 # =============================================================================================
 # model-checking leg (design level): TLC explores Register.tla exhaustively on the model declarations
-def mc_register(tag, declset, slots, invariants, properties, workers=8, timeout=1500):
+def mc_register(tag, declset, slots, invariants, properties, workers=8, timeout=1500, idle_ok=()):
     cfg = os.path.join(WORK, "cfg", "MC_%s.cfg" % tag)
     os.makedirs(os.path.dirname(cfg), exist_ok=True)
     text = "CONSTANTS\n  Slot = {%s}\n  DeclSet <- %s\nSPECIFICATION Spec\nVIEW View\n" % (
@@ -32,7 +32,7 @@ def mc_register(tag, declset, slots, invariants, properties, workers=8, timeout=
     acts = {}
     for m in re.finditer(r"^<(\w+) line \d+, col \d+ to line \d+, col \d+ of module \w+(?: \([\d ]+\))?>: (\d+):(\d+)", r["out"], re.M):
         acts[m.group(1)] = {"distinct": int(m.group(2)), "taken": int(m.group(3))}
-    never = [a for a, c in acts.items() if c["taken"] == 0 and a != "Init"]
+    never = [a for a, c in acts.items() if c["taken"] == 0 and a != "Init" and a not in idle_ok]
     if never:
         raise ToolError("vacuity: actions never taken in MC run %s: %s" % (tag, never))
     return {"config": tag, "declset": declset, "slots": len(slots), "distinct": r["distinct"], "generated": r["generated"],
@@ -230,6 +230,7 @@ COMMON_ASSUMPTIONS = [
 
 
 def run(pid, tier, seed, t0):
+    import verdicts  # noqa: F401  (registers C07, C09, C10, ...)
     fn = REGISTRY.get(pid)
     if fn is None:
         print("TOOL-ERROR: no check registered for", pid)
@@ -278,18 +279,276 @@ def save_decls(tag, decls):
     return p
 
 
+def is_native(n):
+    return n in (8, 16, 32, 64, 128)
+
+
+def contiguous(d, f):
+    return not f["list"] and not f["array"]
+
+
+def gen_random(tier, seed, mode, tag, num_q, num_t, maxfields=6):
+    _, decls = vlib.declgen(mode, q(tier, num_q, num_t), 60, seed, {"GEN_MAXFIELDS": maxfields}, tag)
+    return decls
+
+
+def copyd(decls):
+    return [json.loads(json.dumps(d)) for d in decls]
+
+
 def c01(pid, tier, seed, t0):
     mc = [mc_register("C01", "SmallDecls", ["a", "b"], ["TypeOK", "GetArith", "UpperBitsZero"], [])]
     _, star = vlib.corpus("star")
     _, model = vlib.corpus("model")
-    decls = [dict(d) for d in star] + [dict(d) for d in model]
+    rnd = sub(gen_random(tier, seed, "overlap", "c01", 60, 600), lambda d, f: contiguous(d, f) and f["access"] != "w")
+    decls = copyd(star) + copyd(model) + copyd(rnd)
     declfile = save_decls("C01", decls)
-    legs = [trace_leg(pid, tier, seed, "star+model", decls, declfile, "get,tableget", q(tier, 1, 6), crate="rt-c01")]
+    legs = [trace_leg(pid, tier, seed, "star+model+rand", decls, declfile, "get,tableget", q(tier, 1, 6), crate="rt-c01")]
     finish(pid, tier, seed, t0, mc, legs,
-           "every readable contiguous field of Q-star (22 bases x boundary widths x boundary positions x type variants) read at edge-"
-           "pattern raws (0, ones, field mask, complement, walking 1/0 around every range edge, alternating, random) plus exhaustive "
-           "raw tables for storage 8; an evaluation is one recorded call; distinct non-trivial = distinct (declaration, call, field, "
-           "index, result class) with a non-zero result", COMMON_ASSUMPTIONS)
+           "every readable contiguous field of Q-star (22 bases x boundary widths x boundary positions x type variants) and of seeded "
+           "DeclGen declarations read at edge-pattern raws (0, ones, field mask, complement, walking 1/0 around every range edge, "
+           "alternating, random) plus exhaustive raw tables for storage 8; an evaluation is one recorded call; distinct non-trivial = "
+           "distinct (declaration, call, field, index, result class) with a non-zero result", COMMON_ASSUMPTIONS)
 
 
-REGISTRY = {"C01": c01}
+def c02(pid, tier, seed, t0):
+    mc = [mc_register("C02", "SmallDecls", ["a", "b"], ["TypeOK", "Frame", "ReadBack", "WriteBackIdentity"], ["ReceiverSame"])]
+    _, star = vlib.corpus("star")
+    _, model = vlib.corpus("model")
+    rnd = sub(gen_random(tier, seed, "overlap", "c02", 60, 600), lambda d, f: contiguous(d, f) and f["access"] != "r")
+    decls = copyd(star) + copyd(model) + copyd(rnd)
+    declfile = save_decls("C02", decls)
+    legs = [trace_leg(pid, tier, seed, "star+model+rand", decls, declfile, "write,table", q(tier, 1, 4), crate="rt-c02")]
+    finish(pid, tier, seed, t0, mc, legs,
+           "every writable contiguous field written through with_ AND set_ at (raw, value) pairs: raws {0, ones, field mask, complement, "
+           "random} x values {0, ones, walking 1/0 at both ends, random}; after each write the result's raw value AND storage integer, "
+           "the receiver's raw value and the getter read-back are logged and validated; exhaustive raw x value tables for storage 8. "
+           "distinct non-trivial = distinct (declaration, call, field, index, changed?)", COMMON_ASSUMPTIONS)
+
+
+def c03(pid, tier, seed, t0):
+    mc = [mc_register("C03", "SmallDecls", ["a", "b"], ["TypeOK", "Frame", "ReadBack", "GetArith"], [])]
+    _, arr = vlib.corpus("arr")
+    _, nc = vlib.corpus("nc")
+    rnd = sub(gen_random(tier, seed, "overlap", "c03", 120, 1200), lambda d, f: bool(f["array"]))
+    decls = copyd(arr) + copyd(sub(nc, lambda d, f: bool(f["array"]))) + copyd(rnd)
+    if tier == "quick":
+        # every (element kind, K class, stride class, lo) is kept; of the 8 bases the two largest are thinned to every 2nd field
+        for d in decls:
+            if d["n"] in (100, 128) and len(d["fields"]) > 60:
+                d["fields"] = d["fields"][::2]
+    declfile = save_decls("C03", decls)
+    legs = [trace_leg(pid, tier, seed, "arr+nc-arrays+rand", decls, declfile, "get,write", q(tier, 1, 3), crate="rt-c03")]
+    finish(pid, tier, seed, t0, mc, legs,
+           "array fields of element kinds {bool,u1,u3,u8,i8,u16,enum u2,Option<enum u3>} x K in {2,3,max} x stride in {w,w+1,w+3} x lo "
+           "in {0,1} on 8 bases, plus seeded DeclGen arrays: every index 0..K-1 read and written (with_/set_), out-of-range indices "
+           "{K,K+1,K+7,2^20} on getter, with_ and set_ (must panic; object unchanged after a caught set_ panic)", COMMON_ASSUMPTIONS)
+
+
+def c04(pid, tier, seed, t0):
+    mc = [mc_register("C04", "SmallDecls", ["a", "b"], ["TypeOK", "Frame", "ReadBack", "WriteBackIdentity"], [])]
+    _, nc = vlib.corpus("nc")
+    rnd = sub(gen_random(tier, seed, "overlap", "c04", 150, 2000), lambda d, f: f["list"])
+    decls = copyd(nc) + copyd(rnd)
+    declfile = save_decls("C04", decls)
+    legs = [trace_leg(pid, tier, seed, "nc+rand", decls, declfile, "get,write,table", q(tier, 2, 6), crate="rt-c04")]
+    finish(pid, tier, seed, t0, mc, legs,
+           "non-contiguous range lists (bit reversal, byte swap, RISC-V immediates, reversed/shuffled lists, arrays of lists with "
+           "explicit stride including interleaving elements, ascending back-to-back lists) plus seeded DeclGen lists of 2..3 disjoint "
+           "ranges: each read at walking-1 raws around every range edge and written with walking-1 values over zero and all-ones raws; "
+           "exhaustive tables on 8-bit bases", COMMON_ASSUMPTIONS)
+
+
+def c05(pid, tier, seed, t0):
+    mc = [mc_register("C05", "ByteDecls", ["a"], ["TypeOK", "Frame", "ReadBack", "UpperBitsZero"], [], idle_ok=("NxOOB", "Default"))]
+    _, star = vlib.corpus("star")
+    _, arr = vlib.corpus("arr")
+    _, nc = vlib.corpus("nc")
+    rnd = gen_random(tier, seed, "overlap", "c05", 200, 2000)
+    signed = lambda d, f: f["kind"] == "inat"
+    decls = copyd(sub(star, signed)) + copyd(sub(arr, signed)) + copyd(sub(nc, signed)) + copyd(sub(rnd, signed))
+    declfile = save_decls("C05", decls)
+    legs = [trace_leg(pid, tier, seed, "signed(star,arr,nc,rand)", decls, declfile, "get,write", q(tier, 3, 10), crate="rt-c05")]
+    finish(pid, tier, seed, t0, mc, legs,
+           "every iN field (N in 8,16,32,64,128) of Q-star/Q-arr/Q-nc and seeded declarations: patterns 0, -1, MIN, MAX, walking bits, "
+           "random written over raws {0, ones, mask, complement, random}; bits above the field observed through raw_value() and the "
+           "storage integer; two's-complement decimal rendering checked by the spec for N <= 16", COMMON_ASSUMPTIONS)
+
+
+def c06(pid, tier, seed, t0):
+    mc = [mc_register("C06", "SmallDecls", ["a", "b"], ["TypeOK", "UpperBitsZero"], ["DeclConstant"])]
+    _, base = vlib.corpus("base")
+    decls = copyd(base)
+    declfile = save_decls("C06", decls)
+    legs = [trace_leg(pid, tier, seed, "base", decls, declfile, "base", q(tier, 1, 8), crate="rt-c06")]
+    finish(pid, tier, seed, t0, mc, legs,
+           "all 128 base widths without default, all with a default (literal / named constant, `=` / legacy `:`; default bits no "
+           "field covers; top-bit and all-ones defaults): new_with_raw_value->raw_value for 0, ones, alternating, every walking 1/0, "
+           "random (all 2^N for N <= 10; <= 16 in thorough), ZERO, DEFAULT, Default::default(), new(), size_of/align_of vs the native "
+           "integer, Copy by use-after-copy", COMMON_ASSUMPTIONS)
+
+
+def c08(pid, tier, seed, t0):
+    mc = [mc_register("C08", "SmallDecls", ["a", "b"], ["TypeOK", "Frame", "ReadBack"], [])]
+    _, cust = vlib.corpus("cust")
+    decls = copyd(cust)
+    declfile = save_decls("C08", decls)
+    legs = [trace_leg(pid, tier, seed, "cust", decls, declfile, "get,write", q(tier, 1, 4), crate="rt-c08")]
+    finish(pid, tier, seed, t0, mc, legs,
+           "enum / Option<enum> fields of widths {1,2,3,7,8,9,15,16,17,31,32,33,63,64} (exhaustive where <= 3 bits) and nested "
+           "bitfields of widths {4,8,12,32,64,128} at first/middle/top placement, scalar, array and non-contiguous; every variant "
+           "written, non-variant patterns written through a sibling unsigned field aliasing the same bits and read back as Err(bits)",
+           COMMON_ASSUMPTIONS)
+
+
+def c11(pid, tier, seed, t0):
+    mc = [mc_register("C11", "SmallDecls", ["a", "b"], ["TypeOK", "UpperBitsZero", "LastWriteWins"], []),
+          mc_register("C11n", "NineDecls", ["a"], ["TypeOK", "UpperBitsZero", "LastWriteWins"], [], idle_ok=("Default",))]
+    arb = lambda d: not is_native(d["n"])
+    _, star = vlib.corpus("star")
+    _, arr = vlib.corpus("arr")
+    _, nc = vlib.corpus("nc")
+    _, cust = vlib.corpus("cust")
+    _, model = vlib.corpus("model")
+    rnd = gen_random(tier, seed, "overlap", "c11", 300, 3000)
+    decls = [d for d in copyd(star) + copyd(arr) + copyd(nc) + copyd(cust) + copyd(model) + copyd(rnd) if arb(d)]
+    if tier == "quick":
+        for d in decls:
+            if len(d["fields"]) > 40:
+                # keep every field touching the top bits, thin the rest
+                top = [f for f in d["fields"] if max(h for _, h in f["ranges"]) >= d["n"] - 2 or f["kind"] == "inat"]
+                rest = [f for f in d["fields"] if f not in top]
+                d["fields"] = top + rest[::3]
+    declfile = save_decls("C11", decls)
+    legs = [trace_leg(pid, tier, seed, "arbitrary-int bases", decls, declfile, "write,history", q(tier, 1, 4), crate="rt-c11")]
+    # layouts that would put state above bit N-1 must not exist at all: compile verdicts validated against Decl!Valid
+    import verdicts
+    fam = verdicts.above_n_family()
+    vfile = verdicts.save("C11v", fam)
+    vev = []
+    units = [verdicts.decl_unit(d) for d in fam]
+    vbuilds = verdicts.batch_build("v-c11", units, "dev")
+    for d, u in zip(fam, units):
+        vev.append({"ev": "verdict", "decl": d["id"], "macro_profile": "dev", "accepted": bool(u.compiles),
+                    "in_decl": True if u.compiles else verdicts.in_decl(u),
+                    "source": "\n".join(rustgen.decl_source(d)), "diagnostic": (u.diag or {}).get("rendered", "")})
+    vstates, known = verdicts.validate_events(pid, "v-c11", vev, vfile, fam,
+                                              lambda ev: "%s:u%d:%s" % ("accept" if ev["accepted"] else "reject", fam[ev["decl"]]["n"], rustgen.attr_text(fam[ev["decl"]]["fields"][0]).replace(" ", "")))
+    for line in known:
+        print(line)
+    mc.append({"config": "verdict events (layouts reaching above bit N-1 on 13 arbitrary-int bases, with controls) validated against Decl!Valid",
+               "distinct": vstates, "generated": len(vev), "wall_s": 0})
+    finish(pid, tier, seed, t0, mc, legs,
+           "every arbitrary-int base of all corpora: after every write raw_value() (a panic is a violation), the STORAGE integer "
+           "(transmute) which must have no bit at or above N, and all getters on the live object vs on "
+           "new_with_raw_value(x.raw_value()); random histories of with_/set_/copy/rewrap over two slots", COMMON_ASSUMPTIONS +
+           ["the storage integer is observed by transmute_copy of the #[repr(C)] one-field struct after its size was checked (C06)"])
+
+
+def c12(pid, tier, seed, t0):
+    mc = [mc_register("C12", "SmallDecls", ["a", "b"], ["TypeOK", "LastWriteWins", "DisjointCommute", "UpperBitsZero"], ["ReceiverSame"])]
+    if tier == "thorough":
+        mc.append(mc_register("C12b", "ByteDecls", ["a"], ["TypeOK", "LastWriteWins", "DisjointCommute"], [], idle_ok=("NxOOB", "Default")))
+        mc.append(mc_register("C12n", "NineDecls", ["a"], ["TypeOK", "LastWriteWins", "DisjointCommute", "UpperBitsZero"], [], idle_ok=("Default",)))
+    _, model = vlib.corpus("model")
+    _, nc = vlib.corpus("nc")
+    rnd = gen_random(tier, seed, "overlap", "c12", 150, 1500, maxfields=8)
+    decls = copyd(model) + copyd(nc) + copyd(rnd)
+    declfile = save_decls("C12", decls)
+    legs = [trace_leg(pid, tier, seed, "model+nc+rand(overlapping)", decls, declfile, "history", q(tier, 3, 12), crate="rt-c12")]
+    finish(pid, tier, seed, t0, mc, legs,
+           "random histories (60 operations each: with_, set_, reads, copies, re-wraps, resets, out-of-range indices) over two object "
+           "slots on the model declarations, Q-nc and seeded DeclGen layouts with OVERLAPPING fields; the specification's shadow "
+           "register (bit-by-bit last-write-wins) is compared with the logged raw value after every step and every getter observes it",
+           COMMON_ASSUMPTIONS)
+
+
+def c13(pid, tier, seed, t0):
+    mc = [mc_builder("C13")]
+    _, bld = vlib.corpus("bld")
+    rnd = [d for d in gen_random(tier, seed, "valid", "c13", 150, 1500) if builder_sound_py(d)]
+    decls = copyd(bld) + copyd(rnd)
+    declfile = save_decls("C13", decls)
+    legs = [trace_leg(pid, tier, seed, "bld+rand(valid, builder offered)", decls, declfile, "build", q(tier, 2, 40), builder=True, crate="rt-c13")]
+    finish(pid, tier, seed, t0, mc, legs,
+           "builder layouts (complete covers without default; defaults with bits outside every field; read-only gaps; arrays incl. "
+           "bool arrays and K=32; non-contiguous; signed; enum) plus seeded valid declarations: argument tuples all-zero, all-ones, "
+           "walking, index-coded, random; build() result compared with the fold of Write over the writable fields from DEFAULT/zero",
+           COMMON_ASSUMPTIONS + ["which seeded declarations offer a builder is decided by Decl!BuilderSound re-implemented in "
+                                 "gen/checks.py only to SELECT inputs; C14 checks that rule itself"])
+
+
+def builder_sound_py(d):
+    """input selection only (mirror of Decl!BuilderSound for seeded declarations; C14 checks the rule itself)"""
+    seen = set()
+    for f in d["fields"]:
+        if f["access"] not in ("w", "rw"):
+            continue
+        cnt = f["array"][0] if f["array"] else 1
+        for i in range(cnt):
+            p = rustgen.positions(f, i)
+            if len(set(p)) != len(p) or seen & set(p):
+                return False
+            seen |= set(p)
+    return bool(d["def"]) or seen == set(range(d["n"]))
+
+
+def mc_builder(tag):
+    r = vlib.tlc("MC_Builder", "MC_Builder.cfg", workers=4, timeout=900, heap="4g", extra=["-coverage", "1"])
+    if r["rc"] != 0 or "No error has been found" not in r["out"]:
+        raise ToolError("design-level model check of Builder.tla failed:\n" + r["out"][-3000:])
+    return {"config": "MC_Builder", "distinct": r["distinct"], "generated": r["generated"], "wall_s": round(r["wall"], 1),
+            "invariants": ["BuildIsFold", "BuildOnlyWhenComplete", "MaskIsCover"]}
+
+
+def c16(pid, tier, seed, t0):
+    mc = [mc_register("C16", "SmallDecls", ["a", "b"], ["TypeOK", "UpperBitsZero"], [])]
+    _, star = vlib.corpus("star")
+    _, arr = vlib.corpus("arr")
+    _, nc = vlib.corpus("nc")
+    _, cust = vlib.corpus("cust")
+    rnd = gen_random(tier, seed, "overlap", "c16", 100, 1000)
+    decls = copyd(star) + copyd(arr) + copyd(nc) + copyd(rnd)
+    if tier == "quick":
+        for d in decls:
+            if len(d["fields"]) > 30:
+                top = [f for f in d["fields"] if max(h for _, h in f["ranges"]) + ((f["array"][0] - 1) * (f["stride"][0] if f["stride"] else rustgen.width(f)) if f["array"] else 0) >= d["n"] - 1
+                       or rustgen.width(f) >= d["s"] - 1]
+                rest = [f for f in d["fields"] if f not in top]
+                d["fields"] = top + rest[::4]
+    declfile = save_decls("C16", decls)
+    leg = trace_leg(pid, tier, seed, "star+arr+nc+rand", decls, declfile, "get,write", q(tier, 1, 3), profiles=("dev", "release"), crate="rt-c16")
+    dg = leg["digests"]
+    if dg["dev"] != dg["release"]:
+        info = {"property": pid, "kind": "digest", "digests": dg,
+                "explanation": "both traces are behaviours of the specification, yet they differ between profiles"}
+        raise Violation(write_replay(pid, info))
+    finish(pid, tier, seed, t0, mc, [leg],
+           "the C01-C05 drivers (edge-pattern reads, with_/set_ writes, out-of-range indices) on Q-star/Q-arr/Q-nc and seeded "
+           "declarations executed under profile dev (opt-level 0, overflow checks and debug assertions on) and release (opt-level 3, "
+           "both off); BOTH traces validated step by step (any panic other than an out-of-range index, any wrapped shift, is a "
+           "rejected event) and their digests compared", COMMON_ASSUMPTIONS,
+           extra={"profiles": {"dev": "opt-level=0 overflow-checks=on debug-assertions=on", "release": "opt-level=3 overflow-checks=off debug-assertions=off"}})
+
+
+def c19(pid, tier, seed, t0):
+    mc = [mc_register("C19", "SmallDecls", ["a", "b"], ["TypeOK"], ["DeclConstant"])]
+    _, dbg = vlib.corpus("dbg")
+    rnd = []
+    for d in gen_random(tier, seed, "overlap", "c19", 80, 800):
+        fs = [f for f in d["fields"] if not f["array"]]
+        if fs:
+            d = dict(d, fields=[dict(f, access="r" if f["access"] == "w" else f["access"]) for f in fs], debug=True)
+            rnd.append(d)
+    decls = copyd(dbg) + copyd(rnd)
+    declfile = save_decls("C19", decls)
+    legs = [trace_leg(pid, tier, seed, "dbg+rand", decls, declfile, "debug", q(tier, 2, 10), crate="rt-c19")]
+    finish(pid, tier, seed, t0, mc, legs,
+           "debug bitfields with 0..8 readable scalar fields of every kind (bool, uN, native, signed, enum, Option<enum> Ok and Err, "
+           "nested debug bitfield, r# identifier, non-contiguous) plus seeded layouts: {:?} and {:#?} at pattern and random raws; the "
+           "text must be DebugFmt!ComposeLines(name, field names, getter renderings) and each small getter rendering must be the "
+           "specification's value; same raw on a second object => same text", COMMON_ASSUMPTIONS)
+
+
+REGISTRY = {"C01": c01, "C02": c02, "C03": c03, "C04": c04, "C05": c05, "C06": c06, "C08": c08, "C11": c11, "C12": c12,
+            "C13": c13, "C16": c16, "C19": c19}
